@@ -6,6 +6,7 @@ import (
 	"bytes"
 	"fmt"
 	"io"
+	"math/big"
 	"os"
 	"testing"
 
@@ -212,10 +213,14 @@ type ValCase struct {
 	Str    string          `json:"str,omitempty"`
 	Msg    *gen.MsgSpec    `json:"msg,omitempty"`
 	Tail   gen.Hex         `json:"tail"`
+	// kind "atlimit": an allocation with exactly (or one below) the documented
+	// maximum of assets, participants or locked entries
+	Lim string `json:"lim,omitempty"`
+	N   int    `json:"n,omitempty"`
 }
 
 var valKinds = []string{"state", "allocation", "balances", "suballoc", "params", "transaction",
-	"wiremap", "wiremaparray", "walletmap", "walletmaparray", "bigint", "string", "msg", "sparsesigs"}
+	"wiremap", "wiremaparray", "walletmap", "walletmaparray", "bigint", "string", "msg", "sparsesigs", "atlimit"}
 
 func drawValCase(t *rapid.T) ValCase {
 	c := ValCase{Kind: rapid.SampledFrom(valKinds).Draw(t, "kind")}
@@ -253,6 +258,9 @@ func drawValCase(t *rapid.T) ValCase {
 		for i := range c.Wallet {
 			c.Wallet[i] = gen.GenWalletMap().Draw(t, "wm")
 		}
+	case "atlimit":
+		c.Lim = rapid.SampledFrom([]string{"assets", "parts", "locked"}).Draw(t, "lim")
+		c.N = map[string]int{"assets": channel.MaxNumAssets, "parts": channel.MaxNumParts, "locked": channel.MaxNumSubAllocations}[c.Lim] - rapid.IntRange(0, 1).Draw(t, "below")
 	case "bigint":
 		c.Big = gen.GenBal().Draw(t, "big")
 	case "string":
@@ -318,6 +326,56 @@ func runValCase(c ValCase) *h.Outcome {
 				return h.Failf("equal-after-roundtrip:state", "decoded state is not Equal to the original: %v", err)
 			}
 			return same(c.Kind, c.State.Norm(), gen.UnState(&d).Norm())
+		case "atlimit":
+			o.Nontrivial = true
+			o.Class(fmt.Sprintf("atlimit:%s:%d", c.Lim, c.N))
+			nAssets, nParts, nLocked := 1, 2, 0
+			switch c.Lim {
+			case "assets":
+				nAssets = c.N
+			case "parts":
+				nParts = c.N
+			case "locked":
+				nLocked = c.N
+			}
+			a := gen.AllocSpec{Locked: []gen.SubAllocSpec{}}
+			for i := 0; i < nAssets; i++ {
+				a.Assets = append(a.Assets, uint64(i+1))
+				a.Backends = append(a.Backends, 0)
+				row := make([]gen.Big, nParts)
+				for p := range row {
+					row[p] = gen.BigU(uint64(i + p + 1))
+				}
+				a.Bals = append(a.Bals, row)
+			}
+			v := a.Build()
+			for i := 0; i < nLocked; i++ {
+				var id channel.ID
+				id[0], id[1], id[2] = 0xA7, byte(i>>8), byte(i)
+				bals := make([]channel.Bal, nAssets)
+				for k := range bals {
+					bals[k] = big.NewInt(int64(i%7 + 1))
+				}
+				v.Locked = append(v.Locked, *channel.NewSubAlloc(id, bals, nil))
+			}
+			if err := v.Valid(); err != nil {
+				return h.Failf("atlimit-invalid", "an allocation with %d %s (the documented maximum is %d) is not valid: %v", c.N, c.Lim, c.N+(1024-c.N), err)
+			}
+			var d channel.Allocation
+			if _, f := roundTrip("allocation-at-limit:"+c.Lim, v.Encode, d.Decode, func(w io.Writer) error { return d.Encode(w) }, tail); f != nil {
+				return f
+			}
+			if err := v.Equal(&d); err != nil {
+				return h.Failf("equal-after-roundtrip:allocation-at-limit", "decoded allocation (%d %s) is not Equal to the original: %v", c.N, c.Lim, err)
+			}
+			var db channel.Balances
+			if _, f := roundTrip("balances-at-limit:"+c.Lim, v.Balances.Encode, db.Decode, func(w io.Writer) error { return db.Encode(w) }, tail); f != nil {
+				return f
+			}
+			if !v.Balances.Equal(db) {
+				return h.Failf("equal-after-roundtrip:balances-at-limit", "decoded balances (%d %s) are not Equal to the original", c.N, c.Lim)
+			}
+			return nil
 		case "allocation":
 			o.Nontrivial = nontrivialState(c.State)
 			v := c.State.Alloc.Build()
